@@ -261,7 +261,13 @@ def check_reuse(ctx, lib, rng, nodes, recorded, ch, opts, case):
         ctx.count("C10.exporter_reused")
         ctx.count("mon.C10.export")
         exp = ref_export(recorded, ch, s, ml, attr_fn, child_fn, dictcls)
-        got = exporter.export(nodes[s])
+        try:
+            got = exporter.export(nodes[s])
+        except BaseException as e:  # noqa: B902 - e.g. a callback of an earlier configuration still being used
+            if type(e).__name__ == "CaseTimeout":
+                raise
+            ctx.violation("C10/export/reused-exporter-raises", "independent-serialiser", dict(case, reuse_log=log), expected=repr(exp)[:800], observed=repr(e)[:300])
+            return False
         if not deep_eq(got, exp):
             ctx.violation("C10/export/reused-exporter", "independent-serialiser", dict(case, reuse_log=log), expected=repr(exp)[:800], observed=repr(got)[:800])
             return False
